@@ -198,3 +198,117 @@ Print Assumptions c02_api_status_eq.
 Print Assumptions c02_mutes_interleaved_partial.
 Print Assumptions c02_late_cache_write_partial.
 Print Assumptions c02_unrepaired_merge_refuted.
+
+(* ====================================================================================================== *)
+(* (6) END TO END: the silence store composed with the notification pipeline of a group (Model/Pipeline.v). *)
+(* ====================================================================================================== *)
+(* The product of the Silencer model and the timed group model, glued as notify.go glues them (a flush hands its
+   alerts, in order, to MuteStage with the Silencer as muter; what is muted never reaches the receiver stage). One
+   clock; ANY interleaving of silence operations (Set / Expire / Merge / GC / restart / other Mutes callers, the
+   well-formed ones of (2)) with the group's events (inserts, ticks, dedup, delivery attempts with any outcome,
+   timeouts, log GC / gossip); [other] = whatever the other mute stages drop. *)
+From AM Require Import Model.Group Proofs.GroupProofs Model.Pipeline Proofs.PipelineProofs.
+
+(* the verdict [silenced] is the statement about the stored silences *)
+Theorem c02_silenced_spec x lbl S now a :
+  silenced x lbl S now a = false <->
+  forall k p, st S !! k = Some p -> s_start (m_sil p) <= now <= s_end (m_sil p) ->
+              mset_matches (x_re x) (s_ms (m_sil p)) (lbl a) = true -> False.
+Proof.
+  unfold silenced, brute. destruct (brute_ids x S (lbl a) now) as [|k0 l] eqn:E.
+  - split; [|reflexivity]. intros _ k p H1 H2 H3.
+    assert (H : k ∈ brute_ids x S (lbl a) now) by (apply c02_brute_ids_spec; eauto). rewrite E in H. inversion H.
+  - split; [discriminate|]. intros H. exfalso.
+    assert (H0 : k0 ∈ brute_ids x S (lbl a) now) by (rewrite E; left).
+    apply c02_brute_ids_spec in H0 as (p & H1 & H2 & H3). eauto.
+Qed.
+
+(* SILENCED ALERTS ARE NEVER NOTIFIED. Along every accepted run of the product from the empty state, every
+   notification attempt (successful or not) of every integration carries only alerts that no stored silence muted at
+   the instant [tf] of the flush that produced the batch, judged on the silence store [Sf] as it was at that instant
+   (c02_flush_variable_is_latest_flush says what tf and Sf are). *)
+Theorem c02_silenced_alert_is_never_notified x msf lbl cfg c t0 h P outs i r sent oc :
+  prun cfg c x lbl (pinit cfg t0) h = Some (P, outs) -> phist_ok x msf lbl cfg c (pinit cfg t0) h ->
+  In (ONotify i r sent oc) outs ->
+  exists h1 ta h2 P1 o1 tf Sf,
+    h = h1 ++ (ta, PGrp (EAttempt i oc)) :: h2 /\ prun cfg c x lbl (pinit cfg t0) h1 = Some (P1, o1) /\
+    p_flush P1 = Some (tf, Sf) /\ tf <= ta /\ forall f, In f sent -> silenced x lbl Sf tf (f_id f) = false.
+Proof. exact (silenced_never_notified x msf lbl cfg c t0 h P outs i r sent oc). Qed.
+
+(* the history variable p_flush: instant of the LATEST tick before that point and the silence store at that instant *)
+Theorem c02_flush_variable_is_latest_flush x lbl cfg c t0 h P outs tf Sf :
+  prun cfg c x lbl (pinit cfg t0) h = Some (P, outs) -> p_flush P = Some (tf, Sf) ->
+  exists h1 tau other h2 P1 o1, h = h1 ++ (tf, PTick tau other) :: h2 /\
+    prun cfg c x lbl (pinit cfg t0) h1 = Some (P1, o1) /\ Sf = fst (p_sc P1) /\ no_tick h2.
+Proof.
+  intros H Hf. destruct (flush_ghost x lbl cfg c h _ _ _ H) as [[Hn _]|(h1 & tf' & tau & other & h2 & P1 & o1 & -> & Hr & Hfl & Hnt)].
+  - rewrite Hf in Hn. discriminate.
+  - rewrite Hf in Hfl. injection Hfl as -> ->. exists h1, tau, other, h2, P1, o1. auto.
+Qed.
+
+(* ... AND NOTHING ELSE IS WITHHELD: the batch that reaches the integrations at a flush is exactly the group's alerts
+   that are neither silenced at that instant nor dropped by the other mute stages; the silence store is not changed by
+   the flush. (With C01: an unsilenced eligible alert reaches every integration.) *)
+Theorem c02_flush_drops_exactly_the_silenced x msf lbl cfg c P t tau other P' o :
+  PInv x msf lbl cfg P -> pstep cfg c x lbl P t (PTick tau other) = Some (P', o) ->
+  exists g' fl', s_group (p_g P') = Some g' /\ gr_flight g' = Some fl' /\ fl_start fl' = t /\
+    p_flush P' = Some (t, fst (p_sc P)) /\ fst (p_sc P') = fst (p_sc P) /\ o = [OFlush (fl_all fl')] /\
+    forall f, In f (fl_post fl') <->
+              In f (fl_all fl') /\ silenced x lbl (fst (p_sc P)) t (f_id f) = false /\ ~ In (f_id f) other.
+Proof. exact (tick_post_exact x msf lbl cfg c P t tau other P' o). Qed.
+
+(* the invariant used above holds in every reachable state *)
+Theorem c02_pipeline_invariant x msf lbl cfg c t0 h P outs :
+  phist_ok x msf lbl cfg c (pinit cfg t0) h -> prun cfg c x lbl (pinit cfg t0) h = Some (P, outs) -> PInv x msf lbl cfg P.
+Proof. intros Hok H. exact (prun_inv x msf lbl cfg c h _ _ _ (PInv_init x msf lbl cfg t0) Hok H). Qed.
+
+(* Mutes never panics in the pipeline: the product accepts every tick the group model accepts with the specified
+   suppressed set *)
+Theorem c02_pipeline_tick_accepted x msf lbl cfg c P t tau other s' o :
+  PInv x msf lbl cfg P ->
+  Group.step cfg (p_g P) t
+    (ETick tau (filter (fun a => silenced x lbl (fst (p_sc P)) t a) (flush_ids (p_g P) t) ++ other)) = Some (s', o) ->
+  exists P', pstep cfg c x lbl P t (PTick tau other) = Some (P', o) /\ p_g P' = s'.
+Proof. exact (tick_accepted x msf lbl cfg c P t tau other s' o). Qed.
+
+(* the product is a run of each component, so every theorem about accepted runs of the group model (C01, C04, C05,
+   C06) and every theorem about instance histories of the Silencer ((1)-(5) above) applies to it *)
+Theorem c02_pipeline_is_a_group_run x lbl cfg c h P P' outs :
+  prun cfg c x lbl P h = Some (P', outs) -> Group.run cfg (p_g P) (pview cfg c x lbl P h) = Some (p_g P', outs).
+Proof. exact (prun_proj x lbl cfg c h P P' outs). Qed.
+
+Theorem c02_pipeline_is_a_silencer_history x lbl cfg c h P P' outs :
+  prun cfg c x lbl P h = Some (P', outs) -> fst (crun c x (p_sc P) (sview x lbl cfg c P h)) = p_sc P'.
+Proof. exact (prun_sil_proj x lbl cfg c h P P' outs). Qed.
+
+(* ---------- non-vacuity: a silence on alert 1, alerts 1 and 2 fire, the first flush notifies 2 only; the silence is
+   expired; the next flush notifies 1 and 2 ---------- *)
+Definition px_lbl (a : Z) : labels := if a =? 1 then [("a", "1")] else [("a", "2")].
+Definition px_cfg : gcfg := mkG 10 50 1000 20 5000 [mkI true].
+Definition px_hist : list (Z * pev) :=
+  [ (100, PSil (CStore (OSet ex_sil "id1" 0)));
+    (110, PGrp (EInsert (mkA 1 110 0 110))); (115, PGrp (EInsert (mkA 2 115 0 115)));
+    (120, PTick 120 []); (120, PGrp (EDedup 0)); (121, PGrp (EAttempt 0 OK)); (121, PGrp EFlushEnd);
+    (150, PSil (CStore (OExpire "id1")));
+    (170, PTick 170 []); (170, PGrp (EDedup 0)); (171, PGrp (EAttempt 0 OK)); (171, PGrp EFlushEnd) ].
+
+Example c02_pipeline_nonvacuous :
+  phist_ok ex_x ex_msf px_lbl px_cfg ex_c (pinit px_cfg 0) px_hist /\
+  option_map snd (prun px_cfg ex_c ex_x px_lbl (pinit px_cfg 0) px_hist) =
+  Some [ OFlush [mkF 1 false 110; mkF 2 false 115]; ONotify 0 RFirst [mkF 2 false 115] OK; OLog 0 [2] [] 121; OFlushEnd true;
+         OFlush [mkF 1 false 110; mkF 2 false 115]; ONotify 0 RNewAlerts [mkF 1 false 110; mkF 2 false 115] OK;
+         OLog 0 [1; 2] [] 171; OFlushEnd true ] /\
+  pview px_cfg ex_c ex_x px_lbl (pinit px_cfg 0) px_hist =
+  [ (100, EEnd); (110, EInsert (mkA 1 110 0 110)); (115, EInsert (mkA 2 115 0 115)); (120, ETick 120 [1]); (120, EDedup 0);
+    (121, EAttempt 0 OK); (121, EFlushEnd); (150, EEnd); (170, ETick 170 []); (170, EDedup 0); (171, EAttempt 0 OK);
+    (171, EFlushEnd) ].
+Proof. vm_compute. repeat split; reflexivity. Qed.
+
+Print Assumptions c02_silenced_alert_is_never_notified.
+Print Assumptions c02_flush_variable_is_latest_flush.
+Print Assumptions c02_flush_drops_exactly_the_silenced.
+Print Assumptions c02_pipeline_invariant.
+Print Assumptions c02_pipeline_tick_accepted.
+Print Assumptions c02_pipeline_is_a_group_run.
+Print Assumptions c02_pipeline_is_a_silencer_history.
+Print Assumptions c02_silenced_spec.
